@@ -331,6 +331,10 @@ var typeIDNames = map[ua.TypeID]string{
 
 // variantAlphabet: index 0 = null variant; then for each built-in id every scalar sample and the
 // array shapes nil / empty / 1-D / 2-D / 3-D.
+// alphabetMaxArrays adds the arrays of MaxVariantArrayLength elements to the alphabet. Only the round-trip check
+// (C01) sets it: as seeds of the byte-mutation checks (C02, C03) values of 256 KiB would be 6 million inputs each.
+var alphabetMaxArrays bool
+
 func variantAlphabet() []variantAlt {
 	out := []variantAlt{{"Null", func() *ua.Variant { return ua.MustVariant(nil) }}}
 	for id := ua.TypeID(1); id <= 25; id++ {
@@ -375,6 +379,38 @@ func variantAlphabet() []variantAlt {
 				return ua.MustVariant(mkN(mkN(mk1(0, 1)), mkN(mk1(2, 3))).Interface())
 			}},
 		)
+		if alphabetMaxArrays && (id == ua.TypeIDInt32 || id == ua.TypeIDBoolean) {
+			// the largest arrays a Variant may hold (MaxVariantArrayLength elements), in every shape of that size
+			seq := func(n int) []int {
+				idx := make([]int, n)
+				for i := range idx {
+					idx[i] = i
+				}
+				return idx
+			}
+			rows := func(n, m int) reflect.Value {
+				in := make([]reflect.Value, n)
+				for i := range in {
+					in[i] = mk1(seq(m)...)
+				}
+				return mkN(in...)
+			}
+			max := ua.MaxVariantArrayLength
+			out = append(out,
+				variantAlt{name + "/1-D[max]", func() *ua.Variant { return ua.MustVariant(mk1(seq(max)...).Interface()) }},
+				variantAlt{name + "/1-D[max-1]", func() *ua.Variant { return ua.MustVariant(mk1(seq(max - 1)...).Interface()) }},
+				variantAlt{name + "/2-D[255x257=max]", func() *ua.Variant { return ua.MustVariant(rows(255, 257).Interface()) }},
+				variantAlt{name + "/2-D[1xmax]", func() *ua.Variant { return ua.MustVariant(rows(1, max).Interface()) }},
+				variantAlt{name + "/2-D[maxx1]", func() *ua.Variant { return ua.MustVariant(rows(max, 1).Interface()) }},
+				variantAlt{name + "/3-D[15x17x257=max]", func() *ua.Variant {
+					in := make([]reflect.Value, 15)
+					for i := range in {
+						in[i] = rows(17, 257)
+					}
+					return ua.MustVariant(mkN(in...).Interface())
+				}},
+			)
+		}
 	}
 	return out
 }
